@@ -5,6 +5,7 @@ package kmip
  * file, You can obtain one at http://mozilla.org/MPL/2.0/. */
 
 import (
+	"bytes"
 	"encoding/binary"
 	"io"
 	"time"
@@ -140,10 +141,17 @@ func (d *Decoder) readByteSlice(expectedTag Tag, expectedType Type) (n int, v []
 		return
 	}
 
-	v = make([]byte, l)
-	_, err = io.ReadFull(d.r, v)
+	// declared length is not trusted: buffer grows only as data actually arrives
+	var buf bytes.Buffer
+
+	_, err = io.CopyN(&buf, d.r, int64(l))
 	if err != nil {
 		return
+	}
+
+	v = buf.Bytes()
+	if v == nil {
+		v = []byte{}
 	}
 
 	n = int(l) + 8
